@@ -96,6 +96,12 @@ CLAIMS["C16"] = dict(
   technique="must-hold lockset dataflow, atomic-section path search, spawn-site argument freshness, pairing rules",
   ref="DESIGN.md §3 C16")
 
+CLAIMS["C13"] = dict(
+  text="Writer discipline: dependency names reach gjson/sjson paths only through gjson.Escape; index/slice expressions of the npm and maven manifest packages are proved in bounds or audited; in the package.json writer the next update (or success) is reachable only after an sjson.Set for the current update - decided path-sensitively over the per-update matched flag - and the buffer is modified only inside the update loop and is what gets written to the requested path; in the pom.xml writer origin strings are split, re-joined and suffix-trimmed with the '@' separator the origin builder uses, so patches are filed under origins the writer looks up. Level 'other': necessary conditions; byte/token preservation and re-read equality are not decided.",
+  note="Trusted: go/ssa; gjson.Escape covers gjson/sjson path syntax; 7 audited index/slice sites with reasons in evidence.",
+  technique="provenance of path arguments, path-sensitive must-pass search, bounds prover, separator agreement between origin builder and readers",
+  ref="DESIGN.md §3 C13")
+
 NA = {}
 
 
